@@ -125,6 +125,10 @@ class BaseParser(xml.sax.ContentHandler):
         else:
             data = ''.join(self._cdata).strip()
             self._cdata = None
+            if self._position is None:
+                # an empty element: there was no character data to take
+                # the position from
+                self._position = self.get_position()
             getattr(self, "characters_" + name)(data)
 
     def endDocument(self):
